@@ -291,7 +291,7 @@ func TestC13(t *testing.T) {
 	}
 	stall := 12 * time.Minute
 	if lib.Thorough() {
-		stall = 90 * time.Minute
+		stall = 65 * time.Minute
 	}
 	parent := lib.RunCases(t, rep, "TestC13", len(scs), 0, stall, func(i int) {
 		e := &lib.Explorer{Sc: scs[i], PreemptBound: 0, FaultBound: fb, MaxExecs: 500000, Budget: stall - 3*time.Minute}
